@@ -171,6 +171,18 @@ def fixed_program():
             ('parse', "extra == 'cuda' or extra == 'cpu'"), ('simpx', 11, [S('cpu')]), ('and', 8, 10), ('not', 12)]
 
 
+def fixed_program2():
+    """no `extra == ...` anywhere: simplify_extras / with_extra of markers that mention extras negatively only, and markers without extras"""
+    return [('parse', "sys_platform == 'linux' and extra != 'test'"), ('simpx', 0, [S('test')]), ('parse', "extra != 'a' or os_name == 'x'"), ('simpx', 2, [S('a')]),
+            ('parse', "os_name == 'y'"), ('simpx', 4, [S('a')]), ('not', 0), ('simpx', 6, [S('test')]), ('and', 0, 2), ('simpx', 8, [S('a'), S('test')])]
+
+
+# one comparison of every kind: whatever process-wide fact the crate derives from "having seen" a kind of comparison is derived before the program runs
+KINDS_WARMUP = ["extra == 'docs'", "extra != 'docs2'", "'x' in os_name", "'x' not in os_name", "os_name in 'x y'", "os_name not in 'x y'", "os_name == 'q'", "os_name < 'q'",
+                "python_full_version >= '1'", "python_full_version == '1.*'", "python_version in '1 2'", "python_version not in '1 2'", "implementation_version ~= '1.2'",
+                "python_version < '3.5.1'", "os.name != 'q'", "extra == 'not a name'"]
+
+
 ALIASES = [('os_name', 'os.name'), ('sys_platform', 'sys.platform'), ('platform_machine', 'platform.machine'), ('platform_version', 'platform.version'),
            ('platform_python_implementation', 'python_implementation')]
 
@@ -240,7 +252,7 @@ def run(ctx):
     # ---- (1) cross-history, fresh processes
     n_prog = 12 if quick else 60
     for p in range(n_prog):
-        prog = fixed_program() if p == 0 else (gen_program(ctx.rng, ctx.rng.randint(12, 25)) if p % 3 else family_program(ctx.rng))
+        prog = fixed_program() if p == 0 else fixed_program2() if p == 1 else (gen_program(ctx.rng, ctx.rng.randint(12, 25)) if p % 3 else family_program(ctx.rng))
         base, rel0 = run_program(h, prog, [], 7)
         ctx.evaluations += 1
         ctx.nontrivial(('prog', tuple(str(s) for s in prog)))
@@ -250,6 +262,7 @@ def run(ctx):
         variants.append(('independent steps permuted', [], perm))
         variants.append(('independent steps in reverse order', [], list(reversed(range(len(prog))))))
         variants.append(('the same program with other version spellings first', 'respell', None))
+        variants.append(('after one comparison of every kind', list(KINDS_WARMUP), None))
         variants.append(('the same program with deprecated key spellings first', 'alias', None))
         variants.append(('the same program with simplify_extras for other extras first', 'extras', None))
         for name, warm, order in variants:
